@@ -4,16 +4,22 @@ import Sml.Spec.Tiling
   `DecoderReader` over a byte source with faults (property C11).
 
   The reader over an `io::Read` (`SrcKind.io`) is the push decoder driven by the history
-  `opsOf evs` (a byte is a `push_byte`, an "other" I/O error is a `reset`, `WouldBlock` and
-  `Interrupted` are nothing).  Its complete behaviour under any sequence of `read` / `next` /
-  `read_nb` / `next_nb` calls is
+  `opsOf evs` (a byte is a `push_byte`, an "other" I/O error and a mid-stream end of input
+  (`Ev.eof`) are a `reset`, `WouldBlock` and `Interrupted` are nothing).  Its complete behaviour
+  under any sequence of `read` / `next` / `read_nb` / `next_nb` calls is
 
-      `body d evs`  (the results produced while events are left),
+      `body d evs`  (the results `read` produces while events are left; a mid-stream end of
+      input is one `IoErr(Eof, n)`),
       then the end-of-input report for the decoder state `endDec d evs`, then the idle answer
       forever                                                          (`RF.calls_eq`).
 
+  `next` presents an `IoErr(Eof, 0)` as `None` (`view .next`): `nextBody d evs` is `body d evs`
+  seen through `next`; it equals `body d evs` when there is no mid-stream end of input
+  (`map_view_next_body`).
+
   All transformations of the event list asked for in C11 (erasing would-blocks / interrupts,
-  cutting at an "other" error) are then statements about `body` / `endDec`.
+  cutting at an "other" error or at a mid-stream end of input) are then statements about
+  `body` / `endDec`.
 -/
 namespace Sml
 
@@ -124,6 +130,7 @@ def opsOf : List Ev → List Op
   | .wouldBlock :: evs => opsOf evs
   | .interrupted :: evs => opsOf evs
   | .other :: evs => .reset :: opsOf evs
+  | .eof :: evs => .reset :: opsOf evs
 
 /-- the bytes among the events -/
 def bytesOf : List Ev → List UInt8
@@ -132,14 +139,19 @@ def bytesOf : List Ev → List UInt8
   | .wouldBlock :: evs => bytesOf evs
   | .interrupted :: evs => bytesOf evs
   | .other :: evs => bytesOf evs
+  | .eof :: evs => bytesOf evs
 
-/-- the results produced while events are left (`SrcKind.io`) -/
+/-- the results `read` produces while events are left (`SrcKind.io`) -/
 def body (d : Dec) : List Ev → List RItem
   | [] => []
   | .byte b :: evs => outItem (d.push b).2 ++ body (d.push b).1 evs
   | .wouldBlock :: evs => .ioErr .wouldBlock 0 :: body d evs
   | .interrupted :: evs => body d evs
   | .other :: evs => .ioErr .other d.reset.2 :: body d.reset.1 evs
+  | .eof :: evs => .ioErr .eof d.reset.2 :: body d.reset.1 evs
+
+/-- what `next` makes of these: a mid-stream end of input with nothing pending is `None` -/
+def nextBody (d : Dec) (evs : List Ev) : List RItem := (body d evs).map (view .next)
 
 /-- the decoder when the events are exhausted -/
 def endDec (d : Dec) (evs : List Ev) : Dec := (d.run (opsOf evs)).1
@@ -147,8 +159,9 @@ def endDec (d : Dec) (evs : List Ev) : Dec := (d.run (opsOf evs)).1
 /-- what `next` reports at end of input -/
 def eofItem (d : Dec) : List RItem := if d.reset.2 = 0 then [] else [.ioErr .eof d.reset.2]
 
-/-- all results of `next` that are not the final `None`s -/
-def results (d : Dec) (evs : List Ev) : List RItem := body d evs ++ eofItem (endDec d evs)
+/-- all results of `next` that are not the final `None`s (a mid-stream end of input with nothing
+pending contributes a `None` in the middle) -/
+def results (d : Dec) (evs : List Ev) : List RItem := nextBody d evs ++ eofItem (endDec d evs)
 
 /-- all results of `read` before the idle answer `Eof, 0` -/
 def readResults (d : Dec) (evs : List Ev) : List RItem :=
@@ -163,6 +176,8 @@ theorem endDec_interrupted (d : Dec) (evs : List Ev) :
     endDec d (.interrupted :: evs) = endDec d evs := rfl
 theorem endDec_other (d : Dec) (evs : List Ev) :
     endDec d (.other :: evs) = endDec d.reset.1 evs := rfl
+theorem endDec_eof (d : Dec) (evs : List Ev) :
+    endDec d (.eof :: evs) = endDec d.reset.1 evs := rfl
 
 theorem opsOf_append (e1 e2 : List Ev) : opsOf (e1 ++ e2) = opsOf e1 ++ opsOf e2 := by
   induction e1 with
@@ -185,6 +200,11 @@ theorem body_append (e1 : List Ev) : ∀ (d : Dec) (e2 : List Ev),
     | wouldBlock => simp only [List.cons_append, body, ih, endDec_wouldBlock]
     | interrupted => simp only [List.cons_append, body, ih, endDec_interrupted]
     | other => simp only [List.cons_append, body, ih, endDec_other]
+    | eof => simp only [List.cons_append, body, ih, endDec_eof]
+
+theorem nextBody_append (d : Dec) (e1 e2 : List Ev) :
+    nextBody d (e1 ++ e2) = nextBody d e1 ++ nextBody (endDec d e1) e2 := by
+  unfold nextBody; rw [body_append, List.map_append]
 
 theorem bytesOf_append (e1 e2 : List Ev) : bytesOf (e1 ++ e2) = bytesOf e1 ++ bytesOf e2 := by
   induction e1 with
@@ -227,6 +247,21 @@ theorem read_interrupted (d : Dec) (evs : List Ev) :
 theorem read_other (kind : SrcKind) (d : Dec) (evs : List Ev) :
     read { kind := kind, dec := d, evs := .other :: evs } =
       ({ kind := kind, dec := d.reset.1, evs := evs }, .ioErr .other d.reset.2) := rfl
+
+/-- a mid-stream end of input (slice / iterator / `io::Read`): `IoErr(Eof, n)`, the decoder is
+reset, the source is positioned behind the event -/
+theorem read_eof {kind : SrcKind} (hk : kind ≠ .eh) (d : Dec) (evs : List Ev) :
+    read { kind := kind, dec := d, evs := .eof :: evs } =
+      ({ kind := kind, dec := d.reset.1, evs := evs }, .ioErr .eof d.reset.2) := by
+  cases kind with
+  | mem => rfl
+  | io => rfl
+  | eh => exact absurd rfl hk
+
+/-- the embedded-hal source has no end of input: the event is an error like any other -/
+theorem read_eof_eh (d : Dec) (evs : List Ev) :
+    read { kind := .eh, dec := d, evs := .eof :: evs } =
+      ({ kind := .eh, dec := d.reset.1, evs := evs }, .ioErr .other d.reset.2) := rfl
 
 /-! ### the complete behaviour -/
 
@@ -295,45 +330,82 @@ theorem calls_eq (evs : List Ev) : ∀ (d : Dec) (cs : List Call),
         rw [ih]
         simp only [readResults, body, endDec_other, List.cons_append,
           List.length_cons, padTo_cons, List.zipWith_cons_cons]
+      | eof =>
+        rw [calls_cons, call_eq_read, read_eof (by simp)]
+        simp only
+        rw [ih]
+        simp only [readResults, body, endDec_eof, List.cons_append,
+          List.length_cons, padTo_cons, List.zipWith_cons_cons]
 
-/-- nothing in `body` is an end-of-input report, `None`, or a non-blocking would-block -/
+/-- nothing in `body` is `None` or a non-blocking would-block; an end-of-input report occurs only
+for a mid-stream end of input (`Ev.eof`) -/
 theorem body_mem (evs : List Ev) : ∀ (d : Dec) (x : RItem), x ∈ body d evs →
-    x ≠ .none ∧ x ≠ .nbWouldBlock ∧ (∀ n, x ≠ .ioErr .eof n) ∧
+    x ≠ .none ∧ x ≠ .nbWouldBlock ∧ (Ev.eof ∉ evs → ∀ n, x ≠ .ioErr .eof n) ∧
       ∀ n, x = .ioErr .wouldBlock n → n = 0 := by
   induction evs with
   | nil => intro d x hx; simp [body] at hx
   | cons e evs ih =>
     intro d x hx
+    have lift : ∀ d' : Dec, x ∈ body d' evs →
+        x ≠ .none ∧ x ≠ .nbWouldBlock ∧ (Ev.eof ∉ e :: evs → ∀ n, x ≠ .ioErr .eof n) ∧
+          ∀ n, x = .ioErr .wouldBlock n → n = 0 := fun d' hx' =>
+      have h := ih d' x hx'
+      ⟨h.1, h.2.1, fun hne => h.2.2.1 (fun hc => hne (List.mem_cons_of_mem _ hc)), h.2.2.2⟩
     cases e with
     | byte b =>
       simp only [body, List.mem_append] at hx
       rcases hx with hx | hx
       · cases ho : (d.push b).2 <;> simp [ho, outItem] at hx <;> subst hx <;> simp
-      · exact ih _ x hx
+      · exact lift _ hx
     | wouldBlock =>
       simp only [body, List.mem_cons] at hx
       rcases hx with rfl | hx
       · simp
-      · exact ih _ x hx
-    | interrupted => exact ih _ x hx
+      · exact lift _ hx
+    | interrupted => exact lift _ hx
     | other =>
       simp only [body, List.mem_cons] at hx
       rcases hx with rfl | hx
       · simp
-      · exact ih _ x hx
+      · exact lift _ hx
+    | eof =>
+      simp only [body, List.mem_cons] at hx
+      rcases hx with rfl | hx
+      · simp
+      · exact lift _ hx
 
-theorem map_view_next_body (d : Dec) (evs : List Ev) :
-    (body d evs).map (view .next) = body d evs := by
-  rw [List.map_congr_left, List.map_id]
-  intro x hx
-  have h := (body_mem evs d x hx).2.2.1
+/-- `next` presents every result of `read` unchanged, except `IoErr(Eof, 0)` -/
+theorem view_next_of_ne {x : RItem} (h : x ≠ .ioErr .eof 0) : view .next x = x := by
   cases x with
   | ioErr k n =>
     cases k with
-    | eof => exact absurd rfl (h n)
+    | eof =>
+      cases n with
+      | zero => exact absurd rfl h
+      | succ n => rfl
     | wouldBlock => rfl
     | other => rfl
   | _ => rfl
+
+/-- without a mid-stream end of input `next` presents the results of `read` unchanged.
+(The hypothesis is needed: `body d [.eof]` is `[IoErr(Eof, 0)]` for a new decoder `d`, and `next`
+turns that into `None`.) -/
+theorem map_view_next_body (d : Dec) (evs : List Ev) (hne : Ev.eof ∉ evs) :
+    (body d evs).map (view .next) = body d evs := by
+  rw [List.map_congr_left, List.map_id]
+  intro x hx
+  exact view_next_of_ne ((body_mem evs d x hx).2.2.1 hne 0)
+
+theorem nextBody_of_noEof (d : Dec) (evs : List Ev) (hne : Ev.eof ∉ evs) :
+    nextBody d evs = body d evs := map_view_next_body d evs hne
+
+/-- `results` in the form it has without a mid-stream end of input -/
+theorem results_of_noEof (d : Dec) (evs : List Ev) (hne : Ev.eof ∉ evs) :
+    results d evs = body d evs ++ eofItem (endDec d evs) := by
+  unfold results; rw [nextBody_of_noEof d evs hne]
+
+theorem nextBody_length (d : Dec) (evs : List Ev) : (nextBody d evs).length = (body d evs).length :=
+  List.length_map ..
 
 /-- `k` successive `next` calls: `results`, then `None` forever -/
 theorem nexts_io (d : Dec) (evs : List Ev) (k : Nat) :
@@ -344,13 +416,13 @@ theorem nexts_io (d : Dec) (evs : List Ev) (k : Nat) :
   have := zipWith_replicate_left' view Call.next (padTo (RItem.ioErr .eof 0) (readResults d evs) k)
   rw [hl] at this
   rw [this, map_padTo]
-  simp only [readResults, results, List.map_append, map_view_next_body, List.map_cons, List.map_nil,
+  simp only [readResults, results, nextBody, List.map_append, List.map_cons, List.map_nil,
     eofItem]
   show padTo RItem.none _ k = _
   cases h : (endDec d evs).reset.2 with
   | zero =>
     simp only [if_true]
-    show padTo RItem.none (body d evs ++ [RItem.none]) k = _
+    show padTo RItem.none ((body d evs).map (view .next) ++ [RItem.none]) k = _
     rw [padTo_snoc_self, List.append_nil]
   | succ n => simp [view]
 
@@ -375,6 +447,7 @@ def strip : List Ev → List Ev
   | .wouldBlock :: evs => strip evs
   | .interrupted :: evs => strip evs
   | .other :: evs => .other :: strip evs
+  | .eof :: evs => .eof :: strip evs
 
 /-- remove the would-block results -/
 def dropWB (l : List RItem) : List RItem := l.filter (· ≠ RItem.ioErr .wouldBlock 0)
@@ -411,11 +484,50 @@ theorem body_strip (evs : List Ev) : ∀ d : Dec, body d (strip evs) = dropWB (b
     | wouldBlock => rw [strip, body, ih]; simp [dropWB]
     | interrupted => rw [strip, body, ih]
     | other => rw [strip, body, body, ih]; simp [dropWB]
+    | eof => rw [strip, body, body, ih]; simp [dropWB]
+
+/-- `next` relabels neither a would-block nor anything into a would-block -/
+theorem view_next_eq_wb (x : RItem) :
+    view .next x = .ioErr .wouldBlock 0 ↔ x = .ioErr .wouldBlock 0 := by
+  cases x with
+  | ioErr k n =>
+    cases k with
+    | eof => cases n <;> simp [view]
+    | wouldBlock => simp [view]
+    | other => simp [view]
+  | _ => simp [view]
+
+theorem dropWB_map_view_next (l : List RItem) :
+    dropWB (l.map (view .next)) = (dropWB l).map (view .next) := by
+  unfold dropWB
+  rw [List.filter_map]
+  congr 1
+  apply List.filter_congr
+  intro x _
+  by_cases hx : x = .ioErr .wouldBlock 0
+  · simp [hx, view]
+  · have hv : view .next x ≠ .ioErr .wouldBlock 0 := fun h => hx ((view_next_eq_wb x).1 h)
+    simp [hx, hv]
+
+theorem count_wb_map_view_next (l : List RItem) :
+    (l.map (view .next)).count (RItem.ioErr .wouldBlock 0) = l.count (RItem.ioErr .wouldBlock 0) := by
+  induction l with
+  | nil => rfl
+  | cons x l ih =>
+    rw [List.map_cons, List.count_cons, List.count_cons, ih]
+    by_cases hx : x = .ioErr .wouldBlock 0
+    · simp [hx, view]
+    · have hv : view .next x ≠ .ioErr .wouldBlock 0 := fun h => hx ((view_next_eq_wb x).1 h)
+      simp [hx, hv]
+
+theorem nextBody_strip (d : Dec) (evs : List Ev) :
+    nextBody d (strip evs) = dropWB (nextBody d evs) := by
+  unfold nextBody; rw [body_strip, dropWB_map_view_next]
 
 theorem results_strip (d : Dec) (evs : List Ev) :
     results d (strip evs) = dropWB (results d evs) := by
   unfold results
-  rw [body_strip, endDec_strip, dropWB_append, dropWB_eofItem]
+  rw [nextBody_strip, endDec_strip, dropWB_append, dropWB_eofItem]
 
 theorem readResults_strip (d : Dec) (evs : List Ev) :
     readResults d (strip evs) = dropWB (readResults d evs) := by
@@ -438,19 +550,58 @@ theorem count_wb_body (evs : List Ev) : ∀ d : Dec,
     | wouldBlock => simp [body, ih]
     | interrupted => simp [body, ih]
     | other => simp [body, ih]
+    | eof => simp [body, ih]
 
 theorem count_wb_results (d : Dec) (evs : List Ev) :
     (results d evs).count (RItem.ioErr .wouldBlock 0) = evs.count .wouldBlock := by
-  unfold results eofItem
-  rw [List.count_append, count_wb_body]
+  unfold results eofItem nextBody
+  rw [List.count_append, count_wb_map_view_next, count_wb_body]
   split <;> simp
 
+/-- what `next` never returns: a non-blocking would-block, `IoErr(Eof, 0)`, a would-block with a
+count; and `None` only for a mid-stream end of input -/
+theorem nextBody_mem (d : Dec) (evs : List Ev) (x : RItem) (hx : x ∈ nextBody d evs) :
+    (Ev.eof ∉ evs → x ≠ .none) ∧ x ≠ .nbWouldBlock ∧ x ≠ .ioErr .eof 0 ∧
+      (Ev.eof ∉ evs → ∀ n, x ≠ .ioErr .eof n) ∧ ∀ n, x = .ioErr .wouldBlock n → n = 0 := by
+  unfold nextBody at hx
+  obtain ⟨y, hy, rfl⟩ := List.mem_map.1 hx
+  have hm := body_mem evs d y hy
+  refine ⟨fun hne => ?_, ?_, ?_, fun hne => ?_, ?_⟩
+  · rw [view_next_of_ne (hm.2.2.1 hne 0)]; exact hm.1
+  · cases y with
+    | ioErr k n =>
+      cases k with
+      | eof => cases n <;> simp [view]
+      | wouldBlock => simp [view]
+      | other => simp [view]
+    | nbWouldBlock => exact absurd rfl hm.2.1
+    | _ => simp [view]
+  · cases y with
+    | ioErr k n =>
+      cases k with
+      | eof => cases n <;> simp [view]
+      | wouldBlock => simp [view]
+      | other => simp [view]
+    | _ => simp [view]
+  · rw [view_next_of_ne (hm.2.2.1 hne 0)]; exact hm.2.2.1 hne
+  · intro n hn
+    have : y = .ioErr .wouldBlock n := by
+      cases y with
+      | ioErr k m =>
+        cases k with
+        | eof => cases m <;> simp [view] at hn
+        | wouldBlock => simpa [view] using hn
+        | other => simp [view] at hn
+      | _ => simp [view] at hn
+    exact hm.2.2.2 n this
+
 theorem results_mem (d : Dec) (evs : List Ev) (x : RItem) (hx : x ∈ results d evs) :
-    x ≠ .none ∧ x ≠ .nbWouldBlock ∧ x ≠ .ioErr .eof 0 ∧ ∀ n, x = .ioErr .wouldBlock n → n = 0 := by
+    (Ev.eof ∉ evs → x ≠ .none) ∧ x ≠ .nbWouldBlock ∧ x ≠ .ioErr .eof 0 ∧
+      ∀ n, x = .ioErr .wouldBlock n → n = 0 := by
   unfold results eofItem at hx
   rcases List.mem_append.1 hx with hx | hx
-  · have := body_mem evs d x hx
-    exact ⟨this.1, this.2.1, this.2.2.1 0, this.2.2.2⟩
+  · have := nextBody_mem d evs x hx
+    exact ⟨this.1, this.2.1, this.2.2.1, this.2.2.2.2⟩
   · split at hx
     · simp at hx
     · next h0 =>
@@ -460,6 +611,47 @@ theorem results_mem (d : Dec) (evs : List Ev) (x : RItem) (hx : x ∈ results d 
       intro hc
       injection hc with _ hc
       exact h0 hc
+
+/-- a `None` among the results of `next` (before the final ones) stems from a mid-stream end of
+input: there are at most as many as `Ev.eof` events -/
+theorem count_none_body (evs : List Ev) : ∀ d : Dec,
+    (nextBody d evs).count RItem.none ≤ evs.count .eof := by
+  induction evs with
+  | nil => intro d; simp [nextBody, body]
+  | cons e evs ih =>
+    intro d
+    cases e with
+    | byte b =>
+      have := ih (d.push b).1
+      have h0 : ((outItem (d.push b).2).map (view .next)).count RItem.none = 0 := by
+        cases (d.push b).2 <;> simp [outItem, view]
+      simp only [nextBody, body, List.map_append, List.count_append] at this ⊢
+      simp only [h0, Nat.zero_add]
+      simpa using this
+    | wouldBlock =>
+      have := ih d
+      simp only [nextBody, body, List.map_cons] at this ⊢
+      simpa [view] using this
+    | interrupted =>
+      have := ih d
+      simp only [nextBody, body] at this ⊢
+      simpa using this
+    | other =>
+      have := ih d.reset.1
+      simp only [nextBody, body, List.map_cons] at this ⊢
+      simpa [view] using this
+    | eof =>
+      have := ih d.reset.1
+      simp only [nextBody, body, List.map_cons] at this ⊢
+      rw [List.count_cons, List.count_cons_self]
+      split <;> omega
+
+theorem count_none_results (d : Dec) (evs : List Ev) :
+    (results d evs).count RItem.none ≤ evs.count .eof := by
+  unfold results eofItem
+  rw [List.count_append]
+  have := count_none_body evs d
+  split <;> simp <;> omega
 
 theorem body_length_le (evs : List Ev) : ∀ d : Dec, (body d evs).length ≤ evs.length := by
   induction evs with
@@ -475,11 +667,12 @@ theorem body_length_le (evs : List Ev) : ∀ d : Dec, (body d evs).length ≤ ev
     | wouldBlock => have := ih d; simp only [body, List.length_cons]; omega
     | interrupted => have := ih d; simp only [body, List.length_cons]; omega
     | other => have := ih d.reset.1; simp only [body, List.length_cons]; omega
+    | eof => have := ih d.reset.1; simp only [body, List.length_cons]; omega
 
 theorem results_length_le (d : Dec) (evs : List Ev) : (results d evs).length ≤ evs.length + 1 := by
   have := body_length_le evs d
   unfold results eofItem
-  rw [List.length_append]
+  rw [List.length_append, nextBody_length]
   split <;> simp <;> omega
 
 theorem take_append_replicate_ge {α : Type} (A : List α) (x : α) {k m : Nat} (h : k ≤ m) :
@@ -533,6 +726,7 @@ theorem readLoop_quiet (pre : List Ev) : ∀ (d : Dec) (rest : List Ev), body d 
         read_interrupted d (pre ++ rest)
       rw [List.cons_append, hr', ih _ _ hq, endDec_interrupted]
     | other => simp [body] at hq
+    | eof => simp [body] at hq
 
 /-! ### decoders that differ in dead fields only -/
 
@@ -560,13 +754,16 @@ theorem body_equiv (evs : List Ev) : ∀ {d d' : Dec}, Dec.Equiv d d' → body d
     | other =>
       have hr := reset_equiv h
       simp only [body, hr.1, ih hr.2]
+    | eof =>
+      have hr := reset_equiv h
+      simp only [body, hr.1, ih hr.2]
 
 theorem endDec_equiv (evs : List Ev) {d d' : Dec} (h : Dec.Equiv d d') :
     Dec.Equiv (endDec d evs) (endDec d' evs) := (Dec.run_equiv _ h).2
 
 theorem results_equiv (evs : List Ev) {d d' : Dec} (h : Dec.Equiv d d') :
     results d evs = results d' evs := by
-  unfold results eofItem
+  unfold results eofItem nextBody
   rw [body_equiv evs h, (reset_equiv (endDec_equiv evs h)).1]
 
 theorem readResults_equiv (evs : List Ev) {d d' : Dec} (h : Dec.Equiv d d') :
@@ -597,11 +794,11 @@ theorem endDec_other_split (d : Dec) (pre post : List Ev) :
 
 theorem results_other (d : Dec) (pre post : List Ev) :
     results d (pre ++ .other :: post) =
-      body d pre ++ [.ioErr .other (endDec d pre).reset.2] ++
+      nextBody d pre ++ [.ioErr .other (endDec d pre).reset.2] ++
         results (endDec d pre).reset.1 post := by
-  unfold results
+  unfold results nextBody
   rw [body_other, endDec_other_split]
-  simp only [List.append_assoc]
+  simp only [List.map_append, List.map_cons, List.map_nil, List.append_assoc, view]
 
 theorem readResults_other (d : Dec) (pre post : List Ev) :
     readResults d (pre ++ .other :: post) =
@@ -614,7 +811,7 @@ theorem readResults_other (d : Dec) (pre post : List Ev) :
 /-- after the error the reader continues like a new one on the remaining events -/
 theorem results_other_fresh (cap : Option Nat) (pre post : List Ev) :
     results (Dec.fresh cap) (pre ++ .other :: post) =
-      body (Dec.fresh cap) pre ++ [.ioErr .other (endDec (Dec.fresh cap) pre).reset.2] ++
+      nextBody (Dec.fresh cap) pre ++ [.ioErr .other (endDec (Dec.fresh cap) pre).reset.2] ++
         results (Dec.fresh cap) post := by
   rw [results_other]
   congr 1
@@ -634,7 +831,68 @@ theorem readResults_other_fresh (cap : Option Nat) (pre post : List Ev) :
   rw [hc] at this
   exact readResults_equiv post this
 
+/-! ### cutting at a mid-stream end of input -/
+
+theorem body_eof (d : Dec) (pre post : List Ev) :
+    body d (pre ++ .eof :: post) =
+      body d pre ++ [.ioErr .eof (endDec d pre).reset.2] ++ body (endDec d pre).reset.1 post := by
+  rw [body_append, body, List.append_assoc]; rfl
+
+theorem endDec_eof_split (d : Dec) (pre post : List Ev) :
+    endDec d (pre ++ .eof :: post) = endDec (endDec d pre).reset.1 post := by
+  rw [endDec_append, endDec_eof]
+
+/-- what `next` returns for a mid-stream end of input with `n` bytes pending -/
+def midEof (n : Nat) : RItem := if n = 0 then .none else .ioErr .eof n
+
+theorem view_next_eof (n : Nat) : view .next (.ioErr .eof n) = midEof n := by
+  cases n <;> rfl
+
+theorem results_eof (d : Dec) (pre post : List Ev) :
+    results d (pre ++ .eof :: post) =
+      nextBody d pre ++ [midEof (endDec d pre).reset.2] ++
+        results (endDec d pre).reset.1 post := by
+  unfold results nextBody
+  rw [body_eof, endDec_eof_split]
+  simp only [List.map_append, List.map_cons, List.map_nil, List.append_assoc, view_next_eof]
+
+theorem readResults_eof (d : Dec) (pre post : List Ev) :
+    readResults d (pre ++ .eof :: post) =
+      body d pre ++ [.ioErr .eof (endDec d pre).reset.2] ++
+        readResults (endDec d pre).reset.1 post := by
+  unfold readResults
+  rw [body_eof, endDec_eof_split]
+  simp only [List.append_assoc]
+
+/-- after the mid-stream end of input the reader continues like a new one on the remaining
+events -/
+theorem results_eof_fresh (cap : Option Nat) (pre post : List Ev) :
+    results (Dec.fresh cap) (pre ++ .eof :: post) =
+      nextBody (Dec.fresh cap) pre ++ [midEof (endDec (Dec.fresh cap) pre).reset.2] ++
+        results (Dec.fresh cap) post := by
+  rw [results_eof]
+  congr 1
+  have hc : (endDec (Dec.fresh cap) pre).buf.cap = cap := endDec_cap pre (Dec.inv_fresh cap)
+  have := reset_equiv_fresh (endDec (Dec.fresh cap) pre)
+  rw [hc] at this
+  exact results_equiv post this
+
+theorem readResults_eof_fresh (cap : Option Nat) (pre post : List Ev) :
+    readResults (Dec.fresh cap) (pre ++ .eof :: post) =
+      body (Dec.fresh cap) pre ++ [.ioErr .eof (endDec (Dec.fresh cap) pre).reset.2] ++
+        readResults (Dec.fresh cap) post := by
+  rw [readResults_eof]
+  congr 1
+  have hc : (endDec (Dec.fresh cap) pre).buf.cap = cap := endDec_cap pre (Dec.inv_fresh cap)
+  have := reset_equiv_fresh (endDec (Dec.fresh cap) pre)
+  rw [hc] at this
+  exact readResults_equiv post this
+
 /-! ### sources without faults: the reference of C15 -/
+
+theorem eof_not_mem_bytes (s : List UInt8) : Ev.eof ∉ s.map Ev.byte := by
+  simp
+
 
 theorem opsOf_bytes (s : List UInt8) : opsOf (s.map Ev.byte) = s.map Op.push := by
   induction s with
@@ -665,21 +923,24 @@ theorem eofItem_eq_rEnd {d : Dec} (h : Dec.Inv d) : eofItem d = d.rEnd := by
 
 theorem results_bytes (s : List UInt8) {d : Dec} (h : Dec.Inv d) :
     results d (s.map Ev.byte) = d.allRItems s := by
-  unfold results Dec.allRItems
+  rw [results_of_noEof _ _ (eof_not_mem_bytes s)]
+  unfold Dec.allRItems
   rw [body_bytes, endDec_bytes, eofItem_eq_rEnd (Dec.pushAll_inv s h)]
 
-/-- without "other" errors, erasing would-blocks and interrupts leaves the bytes -/
-theorem strip_eq_bytes (evs : List Ev) (h : Ev.other ∉ evs) :
+/-- without "other" errors and mid-stream ends of input (both reset the decoder and are kept by
+`strip`), erasing would-blocks and interrupts leaves the bytes -/
+theorem strip_eq_bytes (evs : List Ev) (h : Ev.other ∉ evs) (h' : Ev.eof ∉ evs) :
     strip evs = (bytesOf evs).map Ev.byte := by
   induction evs with
   | nil => rfl
   | cons e evs ih =>
-    have ih := ih (fun hc => h (List.mem_cons_of_mem _ hc))
+    have ih := ih (fun hc => h (List.mem_cons_of_mem _ hc)) (fun hc => h' (List.mem_cons_of_mem _ hc))
     cases e with
     | byte b => simp [strip, bytesOf, ih]
     | wouldBlock => simp [strip, bytesOf, ih]
     | interrupted => simp [strip, bytesOf, ih]
     | other => exact absurd List.mem_cons_self h
+    | eof => exact absurd List.mem_cons_self h'
 
 /-! ### end of input -/
 
